@@ -103,6 +103,21 @@ CLAIMED = {
              "under pure rendezvous and data-race freedom are the race-detector oracle's verdict on sampled schedules, not "
              "theorems). The test-only stop message is not modelled.", design="5/C09",
         technique="Coq proof (Kahn-network determinacy: diamond + canonical schedule) + race-detector pipeline oracle"),
+    "C10": dict(
+        text="Theorems C10_any_input / C10_segments / C10_every_schedule (axiom-free): the writer goroutines' filter (skip type "
+             "NonRTCMMessage, write RawData) over the model's stream handler. For EVERY byte stream the delivered messages "
+             "partition the input in order, the output is the concatenation of the written pieces, every written piece is a "
+             "valid RTCM3 frame (preamble, zero reserved bits, length, CRC-24Q) of the reported type, every other piece was "
+             "delivered as non-RTCM (a delivered type is -1 or a 12-bit value: handle_type_range). For streams of valid frames "
+             "interleaved with 0xD3-free data and an optional truncated tail the output is exactly the frames in order (no "
+             "omission). C10_every_schedule composes this with the pipeline network of C09: with 1-3 writer goroutines "
+             "(output, display log, record file) every schedule ends with every writer having written exactly the frames. "
+             "Correspondence: the real HandleMessages of rtcmfilter (go test -overlay) on mixed/hostile/segment streams, all "
+             "display/record switch settings, chunkings and writer latencies; output, record file and number of display "
+             "entries compared with the extracted model and the valid_frame specification.",
+        note=CORR + "Partial as C09 (capacity-1 abstraction of unbuffered channels). The dailylogger writers and the text of "
+             "display entries are outside the model (entry count only).", design="5/C10",
+        technique="Coq proof (framing theorems C01-C03 + filter lemma + network determinacy) + application-level correspondence"),
     "C11": dict(
         text="Theorems C11_flushed_displayrtcm3 / C11_flushed_rtcmfilter / C11_no_deadlock (axiom-free) over a two-process network "
              "(main: send every message on a bounded channel, close it, wait for the writer iff the generated fact waits_<app> "
